@@ -257,9 +257,9 @@ def sigma_filter(filename, region, step_size, box_size, shape, domask,
         with size = box_size
         """
         r_min = max(0, r - box_size[0] // 2)
-        r_max = min(data.shape[0] - 1, r + box_size[0] // 2)
+        r_max = min(data.shape[0], r + box_size[0] // 2)
         c_min = max(0, c - box_size[1] // 2)
-        c_max = min(data.shape[1] - 1, c + box_size[1] // 2)
+        c_max = min(data.shape[1], c + box_size[1] // 2)
         return r_min, r_max, c_min, c_max
 
     # set up a grid of rows/cols at which we will compute the bkg/rms
